@@ -30,6 +30,7 @@ static std::vector<std::string> scenario_args(int sc, const std::string& wd) {
               a.insert(a.end(), {"--gui", "false", "-c", cfg, "-o", wd + "/out.h5"}); } break;                       // half-migrated parent config: legacy and current name of the same quantity, different values
     case 6: { std::ofstream f(cfg); f << "steps=2000\nRFVoltage=1.5e6\nSyncFreq=7100\nGridSize=32\n";
               a.insert(a.end(), {"--gui", "false", "-c", cfg, "-o", wd + "/out.h5", "-N", "500", "-V", "8e5", "-f", "6500"}); } break;   // legacy names in the parent config, current names on the command line
+    case 7: a.insert(a.end(), {"--gui", "false", "-c", "/dev/null", "-o", wd + "/out.h5", "--derivation", "3", "-i", "/dev/null", "--tracking", "", "-I", "4.5678912e-3"}); break;   // explicit "no file" values: config, start distribution, tracking
     case 4: a.insert(a.end(), {"--gui", "false", "-o", wd + "/out.h5", "--alpha0", "5.5e-3", "-I", "3.4567891e-3"}); break; // alpha0 on the command line, one bunch
     }
     return a;
